@@ -38,6 +38,7 @@ func runC13(p *Prog, r *Report) {
 	c13RebuildKeepsAll(p, r, "R13.5-rebuild-keeps-all-members")
 	prefixBitsVsConstant(p, r, "R13.6-family-dependent-host-test")
 	c13DecodedArgument(p, r, "R13.7-decoded-argument")
+	c13EntityFieldFlow(p, r, "R13.8-entity-field-flow")
 	c13ImplicitEntity(p, r)
 }
 
@@ -604,5 +605,100 @@ func c13DecodedArgument(p *Prog, r *Report, rule string) {
 	}
 	if n == 0 {
 		r.Undec(rule, "types:extension-decoder", "-", "no function taking the input bytes and a parse function was recognised (anchor vanished)")
+	}
+}
+
+// R13.8: field flow of hand-written encoders whose decoder is tag-driven. Entity.MarshalJSON builds a struct of its own
+// (positional literal!) and hands it to encoding/json; decoding goes through Entity's struct tags. Each member written
+// under JSON name N must be derived from the Entity field that carries the tag N — swapping two same-typed fields
+// (attrs/tags) keeps every key and kind in place and is invisible to the shape rule R13.1.
+func c13EntityFieldFlow(p *Prog, r *Report, rule string) {
+	ent := p.namedType(pTypes, "Entity")
+	if ent == nil {
+		r.Anchor(rule, "types.Entity")
+		return
+	}
+	var enc *types.Func
+	ms := types.NewMethodSet(ent)
+	for i := 0; i < ms.Len(); i++ {
+		if ms.At(i).Obj().Name() == "MarshalJSON" {
+			enc, _ = ms.At(i).Obj().(*types.Func)
+		}
+	}
+	if enc == nil {
+		r.Anchor(rule, "types.Entity.MarshalJSON")
+		return
+	}
+	// reader: tag -> field of Entity
+	est := structOf(ent)
+	tagField := map[string]string{}
+	for i := 0; i < est.NumFields(); i++ {
+		n, _, skip := jsonTag(est.Field(i), est.Tag(i))
+		if !skip {
+			tagField[n] = est.Field(i).Name()
+		}
+	}
+	outs := runForks(func() *sev {
+		s := newSev(p)
+		s.opaque = func(fo *types.Func) bool {
+			return fo.Pkg() != nil && fo.Pkg().Path() != pTypes || (fo.Type().(*types.Signature).Recv() != nil && fo != enc)
+		}
+		return s
+	}, func(s *sev) (tv, any) {
+		res := s.callFn(nil, &tFn{Obj: enc, Recv: &tSym{Name: "e", T: ent}}, nil, false, nil)
+		return res, nil
+	})
+	n := 0
+	for _, o := range outs {
+		if o.Abort != "" {
+			r.Undec(rule, "types.Entity.MarshalJSON", p.pos(enc.Pos()), "the entity encoder is outside the idioms the extraction understands: "+o.Abort)
+			continue
+		}
+		t, ok := o.Result.(*tTuple)
+		if !ok || len(t.Vs) != 2 {
+			continue
+		}
+		m, ok := t.Vs[0].(*tCallU)
+		if !ok || m.Name != "json.Marshal" || len(m.Args) != 1 {
+			r.Undec(rule, "types.Entity.MarshalJSON", p.pos(enc.Pos()), "the encoder does not end in json.Marshal of a struct: "+clip(t.Vs[0].ts(), 120))
+			continue
+		}
+		obj, ok := m.Args[0].(*tObj)
+		if !ok {
+			r.Undec(rule, "types.Entity.MarshalJSON", p.pos(enc.Pos()), "json.Marshal argument is not a struct built in the method")
+			continue
+		}
+		wst := structOf(obj.T)
+		for i := 0; i < wst.NumFields(); i++ {
+			jn, _, skip := jsonTag(wst.Field(i), wst.Tag(i))
+			if skip {
+				continue
+			}
+			n++
+			val := ""
+			if c, ok := obj.F[wst.Field(i).Name()]; ok && c.v != nil {
+				val = c.v.ts()
+			}
+			want, known := tagField[jn]
+			// source fields of e mentioned in the written value
+			src := map[string]bool{}
+			for _, part := range strings.FieldsFunc(val, func(r rune) bool { return !(r == '.' || r == '_' || r >= 'a' && r <= 'z' || r >= 'A' && r <= 'Z' || r >= '0' && r <= '9') }) {
+				if strings.HasPrefix(part, "e.") {
+					f := strings.SplitN(part[2:], ".", 2)[0]
+					src[f] = true
+				}
+			}
+			var srcs []string
+			for f := range src {
+				srcs = append(srcs, f)
+			}
+			sort.Strings(srcs)
+			okFlow := known && len(srcs) == 1 && srcs[0] == want
+			r.Check(okFlow, rule, "types.Entity.MarshalJSON:"+jn, p.pos(enc.Pos()), "`"+jn+"` is written from Entity."+want,
+				"Entity.MarshalJSON writes member `"+jn+"` from ["+strings.Join(srcs, ",")+"]; the decoder (struct tags of Entity) stores `"+jn+"` into Entity."+want+": the entity does not come back equal")
+		}
+	}
+	if n < 4 {
+		r.Undec(rule, "types.Entity.MarshalJSON:members", "-", "expected the four members uid/parents/attrs/tags, extracted "+itoa(n))
 	}
 }
